@@ -1,6 +1,7 @@
 package checks
 
 import (
+	"math/big"
 	"bytes"
 	"crypto/x509"
 	"crypto/x509/pkix"
@@ -384,6 +385,38 @@ func runC02(r *mc.Run) {
 		{"file-leaf-only", &ccpb.RootOfTrust{CabundlePaths: []string{fInter}}, nil},
 		{"file-T,get-collateral+crl", &ccpb.RootOfTrust{CabundlePaths: []string{fT}, GetCollateral: true, CheckCrl: true}, []bool{true, false}},
 		{"file-T,get-collateral", &ccpb.RootOfTrust{CabundlePaths: []string{fT}, GetCollateral: true}, []bool{true, false}},
+	}
+	// other issues of T's root (same name, same key): one that expired before the verification time, one not yet
+	// valid, one whose path length forbids the intermediate. Listed next to the current issue — before or after it,
+	// in one bundle or spread over bundles — they take nothing away: the configuration lists T's usable root.
+	// Listed alone they give no chain that is valid at the verification time
+	issues := []struct {
+		name string
+		cert *x509.Certificate
+	}{
+		{"expired-issue", world.MakeCert(world.CertSpec{CN: world.CNRoot, IsCA: true, Key: T.RootKey, MaxPathLen: 1, Serial: big.NewInt(0x7001), NotBefore: world.T0.AddDate(-10, 0, 0), NotAfter: world.T0.AddDate(0, 0, -30)}, nil, T.RootKey)},
+		{"not-yet-valid-issue", world.MakeCert(world.CertSpec{CN: world.CNRoot, IsCA: true, Key: T.RootKey, MaxPathLen: 1, Serial: big.NewInt(0x7002), NotBefore: world.T0.AddDate(5, 0, 0), NotAfter: world.T0.AddDate(19, 0, 0)}, nil, T.RootKey)},
+		{"pathlen0-issue", world.MakeCert(world.CertSpec{CN: world.CNRoot, IsCA: true, Key: T.RootKey, MaxPathLen: -1, Serial: big.NewInt(0x7003), NotAfter: world.T0.AddDate(19, 0, 0)}, nil, T.RootKey)},
+	}
+	for _, is := range issues {
+		fI := wf(is.name+".pem", world.PEM(is.cert))
+		inI, inT := string(world.PEM(is.cert)), string(world.PEM(T.Root))
+		add := func(name string, rot *ccpb.RootOfTrust, lists []bool) {
+			cfgs = append(cfgs, struct {
+				name  string
+				rot   *ccpb.RootOfTrust
+				lists []bool
+			}{name, rot, lists})
+		}
+		add("file-"+is.name+"-only", &ccpb.RootOfTrust{CabundlePaths: []string{fI}}, []bool{false, false})
+		add("file-"+is.name+"+T-one-bundle", &ccpb.RootOfTrust{CabundlePaths: []string{wf(is.name+"+T.pem", world.PEM(is.cert, T.Root))}}, []bool{true, false})
+		add("file-T+"+is.name+"-one-bundle", &ccpb.RootOfTrust{CabundlePaths: []string{wf("T+"+is.name+".pem", world.PEM(T.Root, is.cert))}}, []bool{true, false})
+		add("files-"+is.name+",T", &ccpb.RootOfTrust{CabundlePaths: []string{fI, fT}}, []bool{true, false})
+		add("files-T,"+is.name, &ccpb.RootOfTrust{CabundlePaths: []string{fT, fI}}, []bool{true, false})
+		add("file-"+is.name+"+inline-T", &ccpb.RootOfTrust{CabundlePaths: []string{fI}, Cabundles: []string{inT}}, []bool{true, false})
+		add("inline-"+is.name+",T", &ccpb.RootOfTrust{Cabundles: []string{inI, inT}}, []bool{true, false})
+		add("inline-"+is.name+"+T-one-bundle", &ccpb.RootOfTrust{Cabundles: []string{inI + inT}}, []bool{true, false})
+		add("inline-F,"+is.name+",T", &ccpb.RootOfTrust{Cabundles: []string{string(world.PEM(F.Root)), inI, inT}}, []bool{true, true})
 	}
 	for _, cfg := range cfgs {
 		for qi, w := range baseW {
